@@ -57,6 +57,12 @@ func (f fshapeA) der() []byte {
 			all = append(all, rawSeq(rawCtx(0, true, rawCtx(1, true, []byte{0x30, 0x00})))...)
 		case "malformed":
 			all = append(all, rawSeq(rawCtx(0, true, []byte{0x04, 0x01, 0x00}))...)
+		case "malformed-not-a-sequence": // the distribution point is an INTEGER
+			all = append(all, 0x02, 0x01, 0x05)
+		case "malformed-name-truncated": // [0] claims more octets than the distribution point holds
+			all = append(all, 0x30, 0x03, 0xA0, 0x05, 0x00)
+		case "malformed-uri-truncated": // fullName { URI claiming 5 octets, 1 present }
+			all = append(all, rawSeq(rawCtx(0, true, rawCtx(0, true, []byte{0x86, 0x05, 'h'})))...)
 		case "full":
 			var names []byte
 			for _, n := range p.Names {
@@ -88,7 +94,7 @@ func (f fshapeA) term() string {
 			ps = append(ps, "DNoName")
 		case "relative":
 			ps = append(ps, "DRelative")
-		case "malformed":
+		case "malformed", "malformed-not-a-sequence", "malformed-name-truncated", "malformed-uri-truncated":
 			ps = append(ps, "DMalformed")
 		case "full":
 			var ns []string
@@ -413,6 +419,10 @@ func genC18(tier string, rng *RNG, w *CaseWriter) {
 		{Kind: "points", Points: []dpointA{{Kind: "malformed"}}},
 		{Kind: "points", Points: []dpointA{{Kind: "full", Names: uris(d1)}, {Kind: "malformed"}}},
 		{Kind: "points", Points: []dpointA{{Kind: "reasons-only"}}},
+		{Kind: "points", Points: []dpointA{{Kind: "malformed-not-a-sequence"}}},
+		{Kind: "points", Points: []dpointA{{Kind: "full", Names: uris(d1)}, {Kind: "malformed-name-truncated"}}},
+		{Kind: "points", Points: []dpointA{{Kind: "malformed-uri-truncated"}, {Kind: "full", Names: uris(d1)}}},
+		{Kind: "points", Points: []dpointA{{Kind: "full", Names: uris(d1)}, {Kind: "malformed-uri-truncated"}}},
 		{Kind: "points", Points: []dpointA{{Kind: "full", Names: []gnameA{{Truncated: true}}}}},                      // malformed non-URI name: reading stops there
 		{Kind: "points", Points: []dpointA{{Kind: "full", Names: []gnameA{{URI: d1}, {Truncated: true}}}}},           // URI, then a malformed non-URI name
 		{Kind: "points", Points: []dpointA{{Kind: "full", Names: uris(ldap)}}},                                       // only a non-http location: an advertised delta that cannot be obtained
